@@ -5,6 +5,7 @@
 mod dump;
 mod gen;
 mod obs;
+mod oracle;
 mod rng;
 
 use std::io::{self, BufRead, Write};
@@ -159,6 +160,18 @@ fn main() {
                     Ok((Err(_), _, _)) => writeln!(out, "{}\terr", tree).unwrap(),
                     Err(p) => writeln!(out, "{}\tpanic {}", tree, hex(&p)).unwrap(),
                 }
+            }
+        }
+        // W TAB REORDER HEX -> key=value fields (tab separated): the property oracles on (input, output)
+        "oracle" => {
+            for line in stdin.lock().lines() {
+                let line = line.unwrap();
+                let mut it = line.split_whitespace();
+                let w: usize = it.next().unwrap().parse().unwrap();
+                let t: usize = it.next().unwrap().parse().unwrap();
+                let r: usize = it.next().unwrap().parse().unwrap();
+                let src = unhex(it.next().unwrap());
+                writeln!(out, "{}", oracle::run(w, t, r != 0, &src)).unwrap();
             }
         }
         // W -> chain_width
